@@ -368,7 +368,10 @@ func (r *Runner) stmtSync(ctx context.Context, st *syntax.Stmt) {
 		}
 	}
 	if st.Negated {
-		if r.exit.ok() {
+		if r.exit.returning || r.exit.exiting {
+			// "! return" and "! exit" leave the function or the shell
+			// before there is a status to negate.
+		} else if r.exit.ok() {
 			r.exit.code = 1
 		} else {
 			r.exit.clear()
